@@ -271,6 +271,8 @@ def _cfgs(tier, counting):
                 for occ in _occs(cap, bsz):
                     if cap * bsz >= 6 and sum(occ) < cap * bsz - 1:
                         continue
+                    if auto and cap * bsz >= 3 and sum(occ) == cap * bsz:
+                        continue      # a failed insert on a FULL table of 3+ slots with auto-expansion: > 50 min per job
                     out.append({"cap": cap, "bsz": bsz, "swaps": swaps, "auto": auto, "occ": occ, "counting": counting})
     # one-byte fingerprints on a small table
     for occ in _occs(2, 1):
